@@ -9,6 +9,7 @@ unknown key under ExtraForbid, tuple one too long, bad dict key) and the three d
   DISABLE no trail on anything raised.
 """
 import copy
+import dataclasses
 import itertools
 from dataclasses import make_dataclass
 from typing import Dict, List, Optional, Tuple
@@ -458,8 +459,50 @@ def shard(args):
     return report
 
 
+@dataclasses.dataclass
+class RNode:
+    v: int
+    kids: List["RNode"]
+
+
+def recursive_leg(report, max_faults):
+    """a recursive type: the loaders of all levels are ONE object called re-entrantly, so per-call state (the list of collected
+    errors) must not live in the closure.  Every non-empty set of <= max_faults corrupted leaves of a three-level tree."""
+    def tree():
+        return {"v": 1, "kids": [{"v": 2, "kids": [{"v": 3, "kids": []}, {"v": 4, "kids": []}]}, {"v": 5, "kids": []},
+                                 {"v": 6, "kids": [{"v": 7, "kids": []}]}]}
+    leaves = [("v",), ("kids", 0, "v"), ("kids", 0, "kids", 0, "v"), ("kids", 0, "kids", 1, "v"), ("kids", 1, "v"), ("kids", 2, "v"),
+              ("kids", 2, "kids", 0, "v")]
+    loaders = {dbg: Retort(debug_trail=DebugTrail[dbg]).get_loader(RNode) for dbg in ("ALL", "FIRST", "DISABLE")}
+    from mc.modsweep import flatten_errors
+    for n in range(1, max_faults + 1):
+        for bad in itertools.combinations(leaves, n):
+            data = tree()
+            for path in bad:
+                node = data
+                for k in path[:-1]:
+                    node = node[k]
+                node[path[-1]] = "not an int"
+            case = {"leg": "recursive", "faults": [list(p) for p in bad]}
+            report.case(("recursive", bad), nontrivial=True, sample=case)
+            for dbg, ld in loaders.items():
+                report.evaluations += 1
+                try:
+                    ld(copy.deepcopy(data))
+                    got = None
+                except Exception as e:  # noqa: BLE001
+                    got = sorted(tuple(t) for leaf, t in flatten_errors(e))
+                    report.outcome(f"rejected:{dbg}")
+                want = sorted(bad)
+                ok = (got == want if dbg == "ALL" else got is not None and len(got) == 1 and (got[0] in want if dbg == "FIRST" else got[0] == ()))
+                if not ok:
+                    report.violation({"check": "C05.recursive", "debug": dbg},
+                                     f"RNode tree with the leaves {want} corrupted [{dbg}]: reported trails {got}", case)
+
+
 def run(tier):
     report = Report()
+    recursive_leg(report, 3 if tier == "quick" else 5)
     structs = structures(tier)
     k = 4 if tier == "quick" else 5
     n = 128 if tier == "quick" else 512
@@ -481,6 +524,11 @@ def extra_evidence(report, tier):
 
 def replay(case):
     report = Report()
+    if case.get("leg") == "recursive":
+        recursive_leg(report, max(1, len(case["faults"])))
+        for v in report.violations.values():
+            return v["what"]
+        return None
     ts = from_json(case["structure"])
     check_structure(ts, max(1, len(case["faults"])), report)
     for v in report.violations.values():
